@@ -132,15 +132,11 @@ class Spec:
         if self.tree:
             ps[i][2] = True
             return ps, self.nact
-        if i < self.nact:
-            # an active particle goes: the last active particle fills the hole, the last particle fills its slot
-            j = self.nact - 1
-            ps[i] = ps[j]
-            i = j
+        # the last particle fills the hole; N_active is left alone unless it would exceed the new N (then clamped)
         last = ps.pop()
         if i < n - 1:
             ps[i] = last
-        return ps, dec
+        return ps, (n - 1 if self.nact > n - 1 else self.nact)
 
     def step(self, op, code, idx, obs):
         """obs = (N, N_active, N_var, particle list) seen on the library after the operation.
